@@ -118,3 +118,15 @@ def _v36(repo, mod):
     src = mod.source
     src = src.replace("        self._saved_root_level = logging.root.level\n        self._saved_stdin = sys.stdin\n", "        self._saved_root_level, self._saved_stdin = logging.root.level, sys.stdin\n")
     return src
+
+
+@variant("C30", "only-default-seeded-generators-tracked", "pynguin.generator", "C30.tracked", "explicitly seeded Random instances are not registered (seed C30-e)")
+def _v50(repo, mod):
+    from sa.selftest.harness import text_edit
+    return text_edit(mod, "            orig_random_seed(self, x)\n            tracked.add(self)\n", "            if x is None:\n                tracked.add(self)\n            orig_random_seed(self, x)\n")
+
+
+@variant("C30", "sink-reopened-through-the-patched-open", ISO, "C30.sink", "builtin open under filesystem isolation (the repaired defect)")
+def _v51(repo, mod):
+    from sa.selftest.harness import text_edit
+    return text_edit(mod, "self._open(os.devnull, mode=\"w\")", "open(os.devnull, mode=\"w\")")
